@@ -23,7 +23,7 @@ def run(ctx):
         summ = [o for o in out if o.get("summary")][0]
         total_edges += summ["edges"]
         distinct += summ["distinct"]
-        if summ["edges"] != len(edges):
+        if summ["edges"] != len(edges) and not summ.get("hangs"):
             ctx.fail("driver replayed %d of %d edges" % (summ["edges"], len(edges)))
         ctx.sample({"edge": edges[len(edges) // 2]})
         for o in out:
